@@ -118,4 +118,25 @@ theorem validateCRL_accepts_iff (now : Int) (n : Nat) (l : Crl.CrlRec) (exts : L
   · simp [ha]
     first | (intro _; omega) | skip
 
+/-! ### `Supported` (method selection, C11) -/
+
+/-- `crl.Supported(cert)`: the certificate names at least one CRL distribution point — whatever
+    the URLs look like (their scheme is the fetcher's business, not the method selection's) -/
+theorem Supported_eq (now : Int) (n : Nat) (dps : List Val) :
+    sem (prims now) [crl_Supported] (n + 1) "Supported" [.obj [("CRLDistributionPoints", .list dps)]]
+      = some (.bool (!dps.isEmpty)) := by
+  rw [sem_succ]
+  cases dps with
+  | nil => simp [List.find?, crl_Supported, run, pack, execBlock, exec, eval, evalArgs, sbindAll, sbind, sdefine, fset, sget, fget,
+      binop, builtin, field]
+  | cons d r =>
+    have hl : (0 : Int) < (r.length : Int) + 1 := by omega
+    simp [List.find?, crl_Supported, run, pack, execBlock, exec, eval, evalArgs, sbindAll, sbind, sdefine, fset, sget, fget,
+      binop, builtin, field, hl]
+
+theorem Supported_nil (now : Int) (n : Nat) :
+    sem (prims now) [crl_Supported] (n + 1) "Supported" [.nil] = some (.bool false) := by
+  rw [sem_succ]
+  simp [List.find?, crl_Supported, run, pack, execBlock, exec, eval, evalArgs, sbindAll, sbind, sdefine, fset, sget, fget, binop, builtin]
+
 end NotationCore.Tie.Code.Crl
